@@ -96,7 +96,7 @@ PROPS["C05"] = {
 }
 
 PROPS["C18"] = {
-    "modules": ["SamlVerif.Props.C18", "SamlVerif.Props.TransSP", "SamlVerif.Props.PureSaml"],
+    "modules": ["SamlVerif.Props.C18", "SamlVerif.Props.TransSP", "SamlVerif.Props.TransTrust", "SamlVerif.Props.PureSaml"],
     "trusted_base": SP_TB + ["the validator reads time.Now(), not the library clock: freshness cases keep a 5 s guard band around the boundary"],
     "assumptions": ["inflate(deflate b) = b for the encodings-agree theorem"],
     "rule": "both encodings x 4 entry points x signature transformations (valid, none, untrusted key, edited after signing, relocated, duplicated, other trusted-looking key) "
@@ -221,7 +221,7 @@ PROPS["C08"] = {
 }
 
 PROPS["C01"] = {
-    "modules": ["SamlVerif.Props.C01", "SamlVerif.Proofs.Tree", "SamlVerif.Props.TransParse", "SamlVerif.Props.TransArtifact", "SamlVerif.Props.PureSaml"],
+    "modules": ["SamlVerif.Props.C01", "SamlVerif.Proofs.Tree", "SamlVerif.Props.TransParse", "SamlVerif.Props.TransArtifact", "SamlVerif.Props.TransTrust", "SamlVerif.Props.PureSaml"],
     "trusted_base": ["symbolic cryptography: signature values, digest values and certificates are tokens; a ledger (built by the harness from every real signing event, honest or attacker) says which key signed which canonical SignedInfo "
                      "and which canonical content a digest token stands for (unforgeability + collision resistance are the hypothesis HonestLedger of C01_no_forgery)",
                      "modelled, not verified: XML tokenisation (xrv, encoding/xml, etree reader) - the model starts from the parsed tree; what encoding/xml extracts from an element (struct views of the Response header, of each candidate Assertion "
